@@ -1,10 +1,10 @@
-\* quick: 3 calls x 1 connection, 1 drop, 1 noise packet
+\* quick: 3 calls x 1 connection, 1 drop
 CONSTANTS
   Calls = {c1, c2, c3}
   NConns = 1
   Unknown = unk
   MaxDrops = 1
-  MaxNoise = 1
+  MaxNoise = 0
   MaxSilence = 0
   StrictRst = TRUE
   MaxBacklog = 3
